@@ -15,7 +15,7 @@ RULE = ("(meta) generated metadata: 1..384 sites selected on the NP1 / NP2 / NP2
         "unsorted; oracle: every site once, inds a permutation, sorted keys non-decreasing in (shank,row,-col), "
         "sorted[k] == unsorted[k][inds] for every key, x/y/row/col/shank/adc/sample_shift == independent grid and ADC "
         "tables, both encodings give equal geometries, a split child (harness edits the parsed dictionary the way the "
-        "converter does) == parent restricted to the shank, per ADC the delays are {0,1/c,..,(m-1)/c} all distinct. "
+        "converter does, and - for small selections - the metadata NP2Converter itself writes when it splits a tiny recording) == parent restricted to the shank, per ADC the delays are {0,1/c,..,(m-1)/c} all distinct. "
         "(grid) every row 0..1279 x every column x version {1,2,2.4,NPultra}: xy2rc(rc2xy(r,c)) == (r,c) and back, exact; "
         "enumerated exhaustively. (header) trace_header / split_trace_header for the four dense layouts == reference. "
         "Non-trivial = non-monotone channel order with >= 2 shanks or a non-dense selection. Distinct = case hash.")
@@ -164,6 +164,51 @@ def _run_nomap(case, ctx):
             ctx.check(np.array_equal(r[1], np.arange(384)), "C08.default_geometry.index", "index of the default geometry is not the identity")
 
 
+def _converter_children(case, ctx, sg, d, spec, sites, shanks):
+    from vp.gens import np2
+    npx = sut.neuropixel()
+    ns = 700
+    sp = dict(spec, ns=ns, n_acq=spec["n"], stream="ap")
+    nc = gm.n_channels(sp)
+    D = rec.make_data(ns, nc, 12345 + len(sites), "small", nsync=1)
+    root = d / "session"
+    ap = np2.make_session(root, sp, D)
+    conv = ctx.call("C08.converter", npx.NP2Converter, ap, post_check=False, compress=False)
+    if conv is ctx.CRASH:
+        return
+    try:
+        if ctx.call("C08.converter", conv.init_params, nwindow=1200) is ctx.CRASH:
+            return
+        st_ = ctx.call("C08.converter", conv.process)
+    finally:
+        try:
+            conv.sr.close()
+        except Exception:  # noqa
+            pass
+    if st_ is ctx.CRASH or not ctx.check(st_ == 1, "C08.converter_status", lambda: f"NP2Converter.process() returned {st_}"):
+        return
+    ctx.label("child_via_converter")
+    for sh in shanks:
+        fold = root / ("probe00" + chr(97 + int(sh)))
+        metas = sorted(fold.glob("*.ap.meta")) if fold.exists() else []
+        if not ctx.check(len(metas) == 1, "C08.converter_child_missing", lambda: f"no split ap metadata for shank {sh} in {fold.name}"):
+            return
+        for sort in (False, True):
+            mdc = ctx.call("C08.read_meta", sg.read_meta_data, metas[0])
+            if mdc is ctx.CRASH:
+                return
+            rc = ctx.call("C08.child_geometry", sg.geometry_from_meta, mdc, return_index=True, sort=sort)
+            if rc is ctx.CRASH:
+                return
+            eth, eorder = calib.geometry(dict(sp), sort=sort, shank=sh)
+            if not (isinstance(rc, tuple) and len(rc) == 2 and isinstance(rc[0], dict)):
+                ctx.fail("C08.converter_child", "geometry_from_meta(return_index=True) did not return (header, index)")
+                return
+            if not _cmp_geom(ctx, "C08.converter_child", rc[0], eth):
+                return
+            ctx.check(np.array_equal(rc[1], eorder), "C08.converter_child_index", "sort index of a split file differs")
+
+
 def _check_adc_groups(ctx, gen, th):
     """Each ADC serves its channels at distinct, evenly spaced delays {0, 1/c, ..., (m-1)/c}."""
     cyc = 16 if gen in ("NP2.1", "NP2.4") else 13
@@ -261,3 +306,7 @@ def _run_meta(case, ctx):
                 _cmp_geom(ctx, "C08.child", rc[0], eth)
                 ctx.check(np.array_equal(rc[1], eorder), "C08.child_index", "child sort index differs")
             ctx.label("child")
+            # the same through the real splitter: a tiny recording with this metadata is split by NP2Converter and the
+            # geometry of every per-shank file it writes must be the parent's restricted to that shank
+            if spec.get("nsync", 1) == 1 and not spec.get("first_chan") and len(sites) <= 128 and case["child_pick"] % 2 == 0:
+                _converter_children(case, ctx, sg, d, spec, sites, shanks)
